@@ -123,7 +123,8 @@ def build_seqmc():
     ov = {}
     add_tree(ov, os.path.join(VERIF, "seqmc", "main"), os.path.join(REPO, "zzverif", "seqmc", "main"))
     add_tree(ov, os.path.join(VERIF, "seqmc", "vlib"), os.path.join(REPO, "zzverif", "seqmc", "vlib"))
-    add_tree(ov, os.path.join(VERIF, "seqmc", "refcodec"), os.path.join(REPO, "zzverif", "seqmc", "refcodec"))
+    for sub in ("refcodec", "tree", "specio"):
+        add_tree(ov, os.path.join(VERIF, "seqmc", sub), os.path.join(REPO, "zzverif", "seqmc", sub))
     # in-package accessors (unexported state dumps) — files named zz_v*.go placed inside repo packages
     inpkg = os.path.join(VERIF, "seqmc", "inpkg")
     if os.path.isdir(inpkg):
